@@ -218,6 +218,10 @@ var cacheOps = map[string]cacheop{
 // every key gets a value of the redis type its first letter announces (the kv operations of a
 // script are chosen by that letter); anything else is a cache entry (a JSON string)
 func populate(m *miniredis.Miniredis, k string) {
+	if k == "" { // the empty key (legal in redis) of a cache instance
+		m.Set(k, `"m"`)
+		return
+	}
 	switch k[0] {
 	case 's':
 		m.Set(k, "5")
@@ -312,7 +316,7 @@ func runScript(c Case) (out Out) {
 				out.Err = "bad server index"
 				return
 			}
-			conf[q] = cache.NodeConf{RedisConf: redis.RedisConf{Host: mrs[nw[0]].Addr(), Type: redis.NodeType}, Weight: nw[1]}
+			conf[q] = cache.NodeConf{RedisConf: redis.RedisConf{Host: mrs[nw[0]].Addr(), Type: redis.NodeType, NonBlock: true}, Weight: nw[1]}
 		}
 		if cache.TotalWeights(conf) <= 0 {
 			out.Err = "instance without weight (the constructor would exit)"
